@@ -165,6 +165,7 @@ impl DefBuilder {
 pub struct RunState {
     pub building: HashMap<usize, DefBuilder>,
     pub toks: HashMap<usize, Kitoken>,
+    pub defs: HashMap<usize, Definition>,
 }
 
 /// Handles a `DEF …` request; returns the answer ("" for state-only lines).
@@ -210,6 +211,7 @@ pub fn run_def(st: &mut RunState, w: &[&str]) -> Option<String> {
         ["TPL", pos, h] => b.config.templates.push(Template { content: utf8(unhex(h))?, position: parse_position(pos.parse().ok()?)? }),
         ["END"] => {
             let def = b.definition();
+            st.defs.insert(slot, def.clone());
             let built = guarded(|| Kitoken::from_definition(def));
             st.building.remove(&slot);
             return Some(match built {
